@@ -1,7 +1,7 @@
 (* C03 — every operation preserves the invariant (for all configurations, all states). *)
 From Coq Require Import List ZArith Bool Lia.
 From Verif Require Import Lib.ListX C02.Model C03.Model C03.Spec C03.Proofs C03.Proofs_Runtime
-     C03.Proofs_Inv.
+     C03.Proofs_Inv C03.Proofs_Flight.
 Import ListNotations.
 Open Scope Z_scope.
 
@@ -18,7 +18,7 @@ Qed.
 
 Lemma INV_pods cfg wf qs ps ps' tot :
   INV cfg wf (mkState qs ps tot) ->
-  (wf = true -> forall p, In p ps' -> vec_nonnegb (p_req p) = true) ->
+  (wf = true -> forall p, In p ps' -> pod_okb (p_req p) (p_keys p) = true) ->
   INV cfg wf (mkState qs ps' tot).
 Proof.
   intros [H1 H2 H3 H4 H5 H6 H7] Hp. constructor; cbn in *; auto.
@@ -81,7 +81,7 @@ Qed.
 
 Lemma INV_touch cfg wf st p qs ps ps' tot :
   INV cfg wf (mkState qs ps tot) ->
-  (wf = true -> forall x, In x ps' -> vec_nonnegb (p_req x) = true) ->
+  (wf = true -> forall x, In x ps' -> pod_okb (p_req x) (p_keys x) = true) ->
   INV cfg wf (mkState (touch_request st p qs ps') ps' tot).
 Proof.
   intros I Hp. unfold touch_request. destruct (vec_zerob (pod_delta st p)).
@@ -213,17 +213,17 @@ Proof.
 Qed.
 
 Lemma nonneg_app ps p :
-  (forall x, In x ps -> vec_nonnegb (p_req x) = true) -> vec_nonnegb (p_req p) = true ->
-  forall x, In x (ps ++ [p]) -> vec_nonnegb (p_req x) = true.
+  (forall x, In x ps -> pod_okb (p_req x) (p_keys x) = true) -> pod_okb (p_req p) (p_keys p) = true ->
+  forall x, In x (ps ++ [p]) -> pod_okb (p_req x) (p_keys x) = true.
 Proof.
   intros H Hp x Hx. apply in_app_or in Hx. destruct Hx as [Hx|[<-|[]]]; auto.
 Qed.
 
-Lemma INV_pod_add cfg wf st id qn np req :
-  INV cfg wf st -> (wf = true -> vec_nonnegb req = true) ->
-  INV cfg wf (mkState (touch_request st (mkPod id qn req np false) (quotas st)
-                                     (pods st ++ [mkPod id qn req np false]))
-                      (pods st ++ [mkPod id qn req np false]) (total st)).
+Lemma INV_pod_add cfg wf st id qn np req keys :
+  INV cfg wf st -> (wf = true -> pod_okb req keys = true) ->
+  INV cfg wf (mkState (touch_request st (mkPod id qn req keys np false) (quotas st)
+                                     (pods st ++ [mkPod id qn req keys np false]))
+                      (pods st ++ [mkPod id qn req keys np false]) (total st)).
 Proof.
   intros I Hr. destruct st as [qs0 ps tot]. cbn [quotas pods total] in *.
   apply INV_touch with (ps := ps); [exact I|].
@@ -231,15 +231,35 @@ Proof.
 Qed.
 
 Lemma nonneg_set_assigned id b ps :
-  (forall x, In x ps -> vec_nonnegb (p_req x) = true) ->
-  forall x, In x (set_assigned id b ps) -> vec_nonnegb (p_req x) = true.
+  (forall x, In x ps -> pod_okb (p_req x) (p_keys x) = true) ->
+  forall x, In x (set_assigned id b ps) -> pod_okb (p_req x) (p_keys x) = true.
 Proof.
-  intros H x Hx. apply in_set_assigned in Hx. destruct Hx as (p0 & Hp0 & ->). auto.
+  intros H x Hx. apply in_set_assigned in Hx. destruct Hx as (p0 & Hp0 & Hr & Hk).
+  rewrite Hr, Hk. auto.
 Qed.
 
-Lemma INV_pod_add_bound cfg wf st id qn np req :
-  INV cfg wf st -> (wf = true -> vec_nonnegb req = true) ->
-  let p := mkPod id qn req np false in
+(* a replayed bound pod: the quotas it is charged to are exactly the ones that were tainted *)
+Lemma pod_add_bound_facts qs0 ps tot p ps' :
+  let st := mkState qs0 ps tot in
+  let ids0 := map q_id (path st (p_quota p)) in
+  let Y := touch_request st p (taint_ids ids0 qs0) ps' in
+  map q_id (path (mkState Y ps' tot) (p_quota p)) = ids0
+  /\ (forall x, In x Y -> In (q_id x) ids0 -> q_taint x = true).
+Proof.
+  intros st ids0 Y.
+  destruct (touch_request_map st p (taint_ids ids0 qs0) ps') as (h & K & Eh & Ht).
+  fold Y in Eh. split.
+  - rewrite Eh. unfold taint_ids. rewrite map_map.
+    apply (path_ids_map (fun q => h (taint_fn ids0 q))).
+    apply keeps_compose; [exact K|apply keeps_taint_fn].
+  - intros x Hx Hid. rewrite Eh in Hx. apply in_map_iff in Hx.
+    destruct Hx as (x0 & <- & Hx0). rewrite Ht. destruct (K x0) as (Kid & _ & _).
+    rewrite Kid in Hid. exact (taint_ids_tainted ids0 qs0 x0 Hx0 Hid).
+Qed.
+
+Lemma INV_pod_add_bound cfg wf st id qn np req keys :
+  INV cfg wf st -> (wf = true -> pod_okb req keys = true) ->
+  let p := mkPod id qn req keys np false in
   let ps := pods st ++ [p] in
   INV cfg wf
     (charge (mkState (touch_request st p (taint_ids (map q_id (path st qn)) (quotas st)) ps)
@@ -247,22 +267,15 @@ Lemma INV_pod_add_bound cfg wf st id qn np req :
 Proof.
   intros I Hr p ps'. destruct st as [qs0 ps tot]. cbn [quotas pods total] in *.
   set (ids0 := map q_id (path (mkState qs0 ps tot) qn)).
-  destruct (touch_request_map (mkState qs0 ps tot) p (taint_ids ids0 qs0) ps') as (h & K & Eh & Ht).
-  assert (Hps' : wf = true -> forall x, In x ps' -> vec_nonnegb (p_req x) = true).
+  assert (Hps' : wf = true -> forall x, In x ps' -> pod_okb (p_req x) (p_keys x) = true).
   { intro W. apply nonneg_app; [exact (inv_pods _ _ _ I W)|exact (Hr W)]. }
   assert (I1 : INV cfg wf (mkState (touch_request (mkState qs0 ps tot) p (taint_ids ids0 qs0) ps') ps' tot)).
   { apply INV_touch with (ps := ps); [apply INV_taint; exact I|exact Hps']. }
-  unfold charge. cbn [quotas pods total p_quota p_id p_np].
-  assert (Eids : map q_id (path (mkState (touch_request (mkState qs0 ps tot) p (taint_ids ids0 qs0) ps') ps' tot) qn)
-                 = ids0).
-  { rewrite Eh. unfold taint_ids. rewrite map_map.
-    apply (path_ids_map (fun q => h (taint_fn ids0 q))).
-    apply keeps_compose; [exact K|apply keeps_taint_fn]. }
-  change (p_quota p) with qn. rewrite Eids.
+  destruct (pod_add_bound_facts qs0 ps tot p ps') as [Eids Htn].
+  change (p_quota p) with qn in Eids, Htn. fold ids0 in Eids, Htn.
+  unfold charge. cbn [quotas pods total]. change (p_quota p) with qn. rewrite Eids.
   apply INV_upd_used with (ps := ps'); [exact I1| |].
-  - intros W q Hq Hid Hnt. exfalso. rewrite Eh in Hq. apply in_map_iff in Hq.
-    destruct Hq as (x & <- & Hx). rewrite Ht in Hnt. destruct (K x) as (Kid & _ & _).
-    rewrite Kid in Hid. pose proof (taint_ids_tainted ids0 qs0 x Hx Hid). congruence.
+  - intros W q Hq Hid Hnt. exfalso. rewrite (Htn q Hq Hid) in Hnt. discriminate Hnt.
   - intro W. apply nonneg_set_assigned. exact (Hps' W).
 Qed.
 
@@ -282,7 +295,7 @@ Qed.
 
 Lemma INV_refund cfg wf st p ps' :
   INV cfg wf st -> In p (pods st) ->
-  (wf = true -> forall x, In x ps' -> vec_nonnegb (p_req x) = true) ->
+  (wf = true -> forall x, In x ps' -> pod_okb (p_req x) (p_keys x) = true) ->
   INV cfg wf (mkState (refund st p) ps' (total st)).
 Proof.
   intros I Hp Hps. destruct st as [qs0 ps tot]. unfold refund. cbn [quotas pods total] in *.
@@ -291,17 +304,33 @@ Proof.
   apply (refund_used_ok cfg (mkState qs0 ps tot) p I (inv_pods _ _ _ I eq_refl p Hp) x Hx Hnt).
 Qed.
 
-(* ---------- every operation ---------- *)
-Theorem INV_step cfg wf st o :
-  INV cfg wf st -> INV cfg (wf && op_okb st o) (fst (step cfg st o)).
+(* a bare Reserve that belongs to the cycle whose check is in flight *)
+Lemma INV_charge_flight cfg wf st p ids m :
+  INV cfg wf st -> In p (pods st) ->
+  (wf = true -> flight_ok (quotas st) (Some (p_id p, (ids, m)))
+                /\ ids = map q_id (path st (p_quota p)) /\ m = pod_delta st p) ->
+  INV cfg wf (charge st p).
 Proof.
-  intro I.
-  assert (Iw : INV cfg (wf && op_okb st o) st).
+  intros I Hp Hf. destruct st as [qs0 ps tot]. unfold charge. cbn [quotas pods total] in *.
+  apply INV_upd_used with (ps := ps); [exact I| |].
+  - intros W x Hx Hid Hnt. destruct (Hf W) as ((_ & _ & Hb) & Ei & Em). subst ids m.
+    apply Hb; assumption.
+  - intro W. apply nonneg_set_assigned. exact (inv_pods _ _ _ I W).
+Qed.
+
+(* ---------- every operation ---------- *)
+Theorem INV_step cfg wf st sn o :
+  INV cfg wf st -> FL wf st sn -> INV cfg (wf && op_okb st sn o) (fst (step cfg st o)).
+Proof.
+  intros I F.
+  assert (Iw : INV cfg (wf && op_okb st sn o) st).
   { apply (INV_weaken _ _ _ _ I). intro H. apply andb_true_iff in H. apply H. }
-  assert (Hop : wf && op_okb st o = true -> op_okb st o = true).
+  assert (Hop : wf && op_okb st sn o = true -> op_okb st sn o = true).
   { intro H. apply andb_true_iff in H. apply H. }
-  destruct o as [id parent lend decl mx mindecl mn w|id mx mindecl mn w|id qn np req|id|id|id|t
-                 |id qn np req|]; unfold step; cbv zeta.
+  assert (Hwf : wf && op_okb st sn o = true -> wf = true).
+  { intro H. apply andb_true_iff in H. apply H. }
+  destruct o as [id parent lend decl mx mindecl mn w|id mx mindecl mn w|id qn np req keys|id|id|id|id|id|t
+                 |id qn np req keys|]; unfold step; cbv zeta.
   - (* quota add *)
     destruct (id <=? 0) eqn:E0; cbn [orb fst]; [exact Iw|].
     destruct (find_quota id (quotas st)) eqn:Ef; cbn [orb fst]; [exact Iw|].
@@ -332,6 +361,21 @@ Proof.
       destruct (p_assigned p); cbn [negb]; [exact Iw|].
       apply Z.eqb_eq in Ea. apply find_pod_some in Ef.
       apply (INV_charge cfg _ st p q anc Iw (proj1 Ef) Ep Ea).
+  - (* check *)
+    destruct (find_pod id (pods st)) as [p|]; cbn [fst]; exact Iw.
+  - (* reserve *)
+    destruct (find_pod id (pods st)) as [p|] eqn:Ef; cbn [fst]; [|exact Iw].
+    destruct (p_assigned p) eqn:Ea; [exact Iw|].
+    pose proof (find_pod_some _ _ _ Ef) as [Hpin Hpid].
+    apply (INV_charge_flight cfg _ st p
+             (match sn with Some (_, (ids, _)) => ids | None => [] end)
+             (match sn with Some (_, (_, m)) => m | None => vzero end) Iw Hpin).
+    intro W. pose proof (Hop W) as Ho. cbn [op_okb] in Ho. rewrite Ef, Ea in Ho. cbn [orb] in Ho.
+    destruct (F (Hwf W)) as [_ Hfl].
+    destruct sn as [[i [ids m]]|]; [|discriminate Ho].
+    apply andb_true_iff in Ho. destruct Ho as [Ho Hm]. apply andb_true_iff in Ho. destruct Ho as [_ Hids].
+    apply eq_ids_true in Hids. apply vec_eqb_true in Hm.
+    split; [exact Hfl|]. split; [exact Hids|exact Hm].
   - (* unreserve *)
     destruct (find_pod id (pods st)) as [p|] eqn:Ef; cbn [fst]; [|exact Iw].
     destruct (p_assigned p); cbn [fst]; [|exact Iw].
@@ -341,7 +385,7 @@ Proof.
   - (* pod delete *)
     destruct (find_pod id (pods st)) as [p|] eqn:Ef; cbn [fst]; [|exact Iw].
     apply find_pod_some in Ef.
-    assert (Hrm : wf && true = true -> forall x, In x (remove_pod id (pods st)) -> vec_nonnegb (p_req x) = true).
+    assert (Hrm : wf && true = true -> forall x, In x (remove_pod id (pods st)) -> pod_okb (p_req x) (p_keys x) = true).
     { intros W x Hx. apply in_remove_pod in Hx. exact (inv_pods _ _ _ Iw W x Hx). }
     apply INV_touch with (ps := pods st); [|exact Hrm].
     destruct (p_assigned p).
@@ -354,4 +398,130 @@ Proof.
     destruct (find_quota qn (quotas st)); cbn [fst]; [|exact Iw].
     apply INV_pod_add_bound; [exact Iw|]. intro W. exact (Hop W).
   - exact Iw.
+Qed.
+
+(* ---------- the check in flight survives every operation ---------- *)
+Lemma FL_weaken wf wf' st sn : FL wf st sn -> (wf' = true -> wf = true) -> FL wf' st sn.
+Proof. intros F H W. exact (F (H W)). Qed.
+
+Lemma FL_none wf st : (wf = true -> used_nonneg (quotas st)) -> FL wf st None.
+Proof. intros H W. split; [exact (H W)|exact I]. Qed.
+
+Lemma pods_delta_nonneg cfg wf st p :
+  INV cfg wf st -> wf = true -> In p (pods st) -> forall d, 0 <= vget (pod_delta st p) d.
+Proof. intros I W Hp. apply pod_delta_nonneg. exact (inv_pods _ _ _ I W p Hp). Qed.
+
+Theorem FL_step cfg wf st sn o :
+  INV cfg wf st -> FL wf st sn ->
+  FL (wf && op_okb st sn o) (fst (step cfg st o)) (track cfg st sn o).
+Proof.
+  intros I F.
+  assert (Hwf : wf && op_okb st sn o = true -> wf = true).
+  { intro H. apply andb_true_iff in H. apply H. }
+  assert (Hop : wf && op_okb st sn o = true -> op_okb st sn o = true).
+  { intro H. apply andb_true_iff in H. apply H. }
+  assert (Fw : FL (wf && op_okb st sn o) st sn) by (apply (FL_weaken wf); assumption).
+  destruct o as [id parent lend decl mx mindecl mn w|id mx mindecl mn w|id qn np req keys|id|id|id|id|id|t
+                 |id qn np req keys|]; unfold step; cbv zeta; cbn [track].
+  - (* quota add *)
+    destruct (id <=? 0) eqn:E0; cbn [orb fst]; [exact Fw|].
+    destruct (find_quota id (quotas st)) eqn:Ef; cbn [orb fst]; [exact Fw|].
+    match goal with |- context [negb ?b] => destruct b eqn:Ep end; cbn [negb fst]; [|exact Fw].
+    intro W. destruct (Fw W) as [Hn Hf]. cbn [quotas].
+    set (qs := if chk_parent cfg then quotas st else taint_ids [parent] (quotas st)).
+    assert (Hn1 : used_nonneg qs) by (unfold qs; destruct (chk_parent cfg); [exact Hn|apply nonneg_taint; exact Hn]).
+    assert (Hf1 : flight_ok qs sn) by (unfold qs; destruct (chk_parent cfg); [exact Hf|apply flight_taint; exact Hf]).
+    assert (Eids : map q_id qs = map q_id (quotas st)).
+    { unfold qs. destruct (chk_parent cfg); [reflexivity|apply taint_ids_ids]. }
+    split.
+    + apply nonneg_refresh. intros q Hq. apply in_app_or in Hq.
+      destruct Hq as [Hq|[<-|[]]]; [apply Hn1; exact Hq|]. intro d. cbn. rewrite vget_vzero. lia.
+    + apply flight_refresh. apply flight_append; [|exact Hf1].
+      cbn [q_id]. rewrite Eids. apply find_quota_none. exact Ef.
+  - (* quota update *)
+    destruct (find_quota id (quotas st)) as [q0|] eqn:Ef; cbn [fst]; [|exact Fw].
+    intro W. destruct (Fw W) as [Hn Hf]. cbn [quotas].
+    match goal with |- used_nonneg (if ?b then refresh ?i ?l ?p else _) /\ _ =>
+      assert (H1 : used_nonneg l /\ flight_ok l sn);
+      [|destruct H1 as [A B]; destruct b; [split; [apply nonneg_refresh|apply flight_refresh]|split]; assumption]
+    end.
+    split.
+    + apply nonneg_map; [|exact Hn]. intros x _ Hx. destruct (q_id x =? id); exact Hx.
+    + apply flight_map; [|exact Hf]. intros x _. destruct (q_id x =? id); [|apply RL_refl].
+      split; [reflexivity|]. split; [reflexivity|]. intro Ht.
+      change (q_taint x || lowers x mx = false) in Ht. apply orb_false_iff in Ht. destruct Ht as [Ht Hl].
+      split; [exact Ht|]. split; [intro d; cbn; lia|].
+      intros d Hd. change (vget (q_max x) d <= vget mx d).
+      unfold lowers in Hl. rewrite any_dim_false in Hl. specialize (Hl d). rewrite Hd in Hl.
+      cbn in Hl. lia.
+  - (* pod add *)
+    destruct (find_pod id (pods st)); cbn [fst]; [exact Fw|].
+    destruct (find_quota qn (quotas st)); cbn [fst]; [|exact Fw].
+    intro W. destruct (Fw W) as [Hn Hf]. cbn [quotas].
+    split; [apply nonneg_touch|apply flight_touch]; assumption.
+  - (* attempt *)
+    destruct (find_pod id (pods st)) as [p|] eqn:Ef; cbn [fst]; [|apply FL_none; intro W; apply (Fw W)].
+    apply FL_none. intro W. destruct (Fw W) as [Hn _].
+    match goal with |- context [if ?b then charge st p else st] => destruct b end; [|exact Hn].
+    unfold charge. cbn [quotas]. apply nonneg_charge; [|exact Hn].
+    apply find_pod_some in Ef. apply (pods_delta_nonneg cfg wf st p I (Hwf W) (proj1 Ef)).
+  - (* check *)
+    destruct (find_pod id (pods st)) as [p|] eqn:Ef; cbn [fst]; [|apply FL_none; intro W; apply (Fw W)].
+    destruct (admission cfg st p (path st (p_quota p)) =? 0) eqn:Ea; [|apply FL_none; intro W; apply (Fw W)].
+    intro W. destruct (Fw W) as [Hn _]. split; [exact Hn|].
+    apply Z.eqb_eq in Ea. apply find_pod_some in Ef. destruct Ef as [Hpin _].
+    pose proof (Hwf W) as Wt. subst wf.
+    split; [apply (pods_delta_nonneg cfg true st p I eq_refl Hpin)|]. split.
+    + intros i Hi. apply in_map_iff in Hi. destruct Hi as (y & <- & Hy). apply in_map.
+      exact (path_from_in _ _ _ _ Hy).
+    + destruct (path st (p_quota p)) as [|q anc] eqn:Ep; [intros x _ []|].
+      intros x Hx Hid Ht.
+      exact (charge_used_ok cfg st p q anc I (inv_pods _ _ _ I eq_refl p Hpin) Ep Ea x Hx Hid Ht).
+  - (* reserve *)
+    destruct (find_pod id (pods st)) as [p|] eqn:Ef; cbn [fst]; [|apply FL_none; intro W; apply (Fw W)].
+    apply FL_none. intro W. destruct (Fw W) as [Hn _].
+    destruct (p_assigned p); [exact Hn|].
+    unfold charge. cbn [quotas]. apply nonneg_charge; [|exact Hn].
+    apply find_pod_some in Ef. apply (pods_delta_nonneg cfg wf st p I (Hwf W) (proj1 Ef)).
+  - (* unreserve *)
+    destruct (find_pod id (pods st)) as [p|] eqn:Ef; cbn [fst]; [|exact Fw].
+    destruct (p_assigned p); cbn [fst]; [|exact Fw].
+    intro W. destruct (Fw W) as [Hn Hf]. cbn [quotas]. unfold refund.
+    apply find_pod_some in Ef.
+    split; [apply nonneg_refund; exact Hn|].
+    apply flight_refund; [exact Hn|apply (pods_delta_nonneg cfg wf st p I (Hwf W) (proj1 Ef))|exact Hf].
+  - (* pod delete *)
+    destruct (find_pod id (pods st)) as [p|] eqn:Ef; cbn [fst].
+    2:{ intro W. destruct (Fw W) as [Hn Hf]. split; [exact Hn|].
+        destruct sn as [[i x]|]; [|exact Logic.I]. destruct (i =? id); [exact Logic.I|exact Hf]. }
+    intro W. destruct (Fw W) as [Hn Hf]. cbn [quotas].
+    apply find_pod_some in Ef.
+    assert (H1 : used_nonneg (if p_assigned p then refund st p else quotas st)
+                 /\ flight_ok (if p_assigned p then refund st p else quotas st) sn).
+    { destruct (p_assigned p); [|split; assumption]. unfold refund.
+      split; [apply nonneg_refund; exact Hn|].
+      apply flight_refund; [exact Hn|apply (pods_delta_nonneg cfg wf st p I (Hwf W) (proj1 Ef))|exact Hf]. }
+    destruct H1 as [A B]. split; [apply nonneg_touch; exact A|].
+    assert (B' : flight_ok (touch_request st p (if p_assigned p then refund st p else quotas st)
+                                          (remove_pod id (pods st))) sn) by (apply flight_touch; exact B).
+    destruct sn as [[i x]|]; [|exact Logic.I]. destruct (i =? id); [exact Logic.I|exact B'].
+  - (* capacity *)
+    cbn [fst]. exact Fw.
+  - (* bound pod *)
+    destruct (find_pod id (pods st)); cbn [fst]; [exact Fw|].
+    destruct (find_quota qn (quotas st)); cbn [fst]; [|exact Fw].
+    intro W. destruct (Fw W) as [Hn Hf].
+    destruct st as [qs0 ps tot]. cbn [quotas pods total] in *.
+    set (p := mkPod id qn req keys np false). set (ps' := ps ++ [p]).
+    destruct (pod_add_bound_facts qs0 ps tot p ps') as [Eids Htn].
+    change (p_quota p) with qn in Eids, Htn.
+    unfold charge. cbn [quotas pods total]. change (p_quota p) with qn. rewrite Eids.
+    set (ids0 := map q_id (path (mkState qs0 ps tot) qn)) in *.
+    split.
+    + apply nonneg_charge.
+      * apply pod_delta_nonneg. exact (Hop W).
+      * apply nonneg_touch. apply nonneg_taint. exact Hn.
+    + apply flight_charge_tainted; [exact Htn|].
+      apply flight_touch. apply flight_taint. exact Hf.
+  - exact Fw.
 Qed.
